@@ -118,6 +118,9 @@ pub fn gen(rng: &mut Rng, n: usize, sink: &mut Sink) {
                 if rng.chance(1, 6) {
                     a.push(user(2)); // surplus argument: refused
                 }
+                if rng.chance(1, 2) {
+                    sink.exec(&format!("wipe {}", hex::encode(&gs)));
+                }
                 sink.exec(&format!("tx {} {} upgradeContract 0 - {}", hex::encode(&owner), hex::encode(&gs), args(&a)));
                 sink.exec(&format!("query {} gas_collector -", hex::encode(&gs)));
             } else {
